@@ -296,7 +296,13 @@ func c05Pair(r *lib.Run, cfg *lib.Cfg, idx int, mk func() (ygot.GoStruct, ygot.G
 			cl[c] = true
 		}
 		if len(cl) == 1 {
-			r.Violate("conflict-not-detected", confClass(), "MergeStructs succeeded although the inputs conflict: "+confClass(), w(map[string]interface{}{"conflicts": model.Conflicts, "leaf_conflicts": model.LeafConflicts}))
+			note := ""
+			for _, lp := range model.LeafConflicts {
+				if l := oa.Leaves[lp]; l != nil {
+					note = cfg.KeyNote(l.Elems)
+				}
+			}
+			r.Violate("conflict-not-detected", confClass()+note, "MergeStructs succeeded although the inputs conflict: "+confClass(), w(map[string]interface{}{"conflicts": model.Conflicts, "leaf_conflicts": model.LeafConflicts}))
 		} else {
 			r.Hit("multi-class-conflict-undetected")
 			for c := range cl {
@@ -314,7 +320,7 @@ func c05Pair(r *lib.Run, cfg *lib.Cfg, idx int, mk func() (ygot.GoStruct, ygot.G
 			if d.What == "entry" {
 				continue
 			}
-			r.Violate("result-not-union", featOf(d), d.String(), w(map[string]interface{}{"delta": d.String()}))
+			r.Violate("result-not-union", featOf(d)+noteFor(cfg, model.Want, d), d.String(), w(map[string]interface{}{"delta": d.String()}))
 		}
 		if idx < 3 {
 			r.Sample(map[string]interface{}{"cfg": cfg.Name, "pair": kind, "leaves_a": len(oa.Leaves), "leaves_b": len(ob.Leaves), "leaves_result": len(cfg.Observe(res).Leaves)})
@@ -349,7 +355,7 @@ func c05Pair(r *lib.Run, cfg *lib.Cfg, idx int, mk func() (ygot.GoStruct, ygot.G
 				if strings.Contains(d.Path, "[#") {
 					continue // unkeyed entries are positional: order under swap is don't-care
 				}
-				r.Violate("swap-differs", featOf(d), d.String(), w(map[string]interface{}{"delta": d.String()}))
+				r.Violate("swap-differs", featOf(d)+noteFor(cfg, x, d), d.String(), w(map[string]interface{}{"delta": d.String()}))
 			}
 		}
 	}
@@ -376,7 +382,15 @@ func c05Pair(r *lib.Run, cfg *lib.Cfg, idx int, mk func() (ygot.GoStruct, ygot.G
 			if d.What == "entry" {
 				continue
 			}
-			r.Violate("overwrite-result", featOf(d), d.String(), w(map[string]interface{}{"delta": d.String(), "leaf_conflicts": om.LeafConflicts}))
+			r.Violate("overwrite-result", featOf(d)+noteFor(cfg, om.Want, d), d.String(), w(map[string]interface{}{"delta": d.String(), "leaf_conflicts": om.LeafConflicts}))
 		}
 	}
+}
+
+// noteFor adds the key-representation note of the leaf behind a delta.
+func noteFor(cfg *lib.Cfg, o *lib.Obs, d lib.Delta) string {
+	if l := o.Leaves[d.Path]; l != nil {
+		return cfg.KeyNote(l.Elems)
+	}
+	return ""
 }
